@@ -467,6 +467,12 @@ package parser
 //@ pred TagAt(text, bp, t) := t.Range.Start.Line == bp.Line && t.Range.End.Line == bp.Line && bp.Offset + 1 <= t.Range.Start.Offset && t.Range.Start.Offset < t.Range.End.Offset && t.Range.End.Offset <= bp.Offset + 1 + len(text) && t.Range.Start.Column == bp.Column + 1 + u16(substr(text, 0, t.Range.Start.Offset - bp.Offset - 1), t.Range.Start.Offset - bp.Offset - 1) && t.Range.End.Column == bp.Column + 1 + u16(substr(text, 0, t.Range.End.Offset - bp.Offset - 1), t.Range.End.Offset - bp.Offset - 1)
 //@ trusted isValidTagName
 //@   effects none
+//@ func utf16Units
+//@   props C08 C06
+//@   effects none
+//@   ensures [C08:spec] result == u16(s, len(s))
+//@   ensures [nonneg] result >= 0
+//@   loop 1 invariant 0 <= iterpos && iterpos <= len(s) && bnd(s, iterpos) && n == u16(s, iterpos) && n >= 0
 //@ func parseTags
 //@   props C08 C06
 //@   ensures [C08:tag_position] forall k int :: {result[k]} 0 <= k && k < len(result) ==> TagAt(text, basePos, result[k])
